@@ -144,6 +144,7 @@ pub fn payload_c(id: u32, size: usize, code: u8) -> Vec<u8> {
 		0 => payload(id, size, false),
 		1 => payload(id, size, true),
 		2 => crate::indep::encode("gzip", &payload(id, size, true)),
+		4 => vec![], // the empty payload
 		_ => crate::indep::encode("brotli", &payload(id, size, true)),
 	}
 }
